@@ -92,6 +92,11 @@ class World:
     def _build(self, maxn, writers):
         rng, plan, reg = self.rng, self.plan, self.reg
         n = rng.randrange(1, maxn + 1)
+        forced = {}
+        if writers:
+            n = max(n, 4)
+            k = rng.randrange(1, n - 2)
+            forced = {k: "writer", k + 1: "dsource"}
         to_add = []
         for i in range(n):
             r = rng.random()
@@ -99,7 +104,15 @@ class World:
             deps = []
             if earlier and rng.random() < 0.3:
                 deps = rng.sample(earlier, rng.randrange(1, min(2, len(earlier)) + 1))
-            if r < 0.2 or i == 0:
+            if forced.get(i) == "writer":
+                r = 0.99
+            if forced.get(i) == "dsource":
+                st = self._mkstore()
+                node = reg.source(plan, st)
+                deps = [i - 1]
+                m = dict(kind="source", fn=0, litv=0, args=[], deps=deps, store=st.sid, is_src=True)
+                self.set_store(st.sid, rng.randrange(1, 1000))
+            elif r < 0.2 or i == 0:
                 st = self._mkstore()
                 node = reg.source(plan, st)
                 if rng.random() < 0.7:
@@ -119,7 +132,7 @@ class World:
                 args = [rng.choice(earlier) for _ in range(rng.choice([0, 1, 1, 2, 2, 3]))] if earlier else []
                 node = plan.call(self._mkfn(i), *[self.nodes[a] for a in args])
                 m = dict(kind="call", fn=i + 1, litv=0, args=args, deps=deps, store=None, is_src=False)
-                if rng.random() < 0.55:
+                if rng.random() < 0.55 and forced.get(i) != "writer":
                     st = self._mkstore()
                     to_add.append((i, st))
                     m["store"] = st.sid
@@ -376,6 +389,14 @@ class Campaign:
                         diffs[k] = (m[k], obs[k])
             if diffs:
                 ctx.broke("correspondence Cache/Logical.v vs /repo", {"model_vs_impl": diffs, "case": replay})
+        # L1 <-> L2 link: the pruned physical plan of Cache/Transform.v keeps exactly the roles Cache/Logical.v predicts
+        lterms = ["exec_link %s %s %s %s %s" % t for t, *_ in self.cases]
+        louts = core.coq_eval(HEADER, lterms, ty="list nat", shard=150, tag="link")
+        for (t, obs, replay, n, ns), o in zip(self.cases, louts):
+            ctx.compared("Cache/Link.v: roles kept by Transform.v+Prune.v = closed forms of Logical.v")
+            bad = [int(x) for x in re.findall(r"\d+", o)]
+            if bad:
+                ctx.broke("L1/L2 models disagree (Cache/Link.v)", {"nodes": bad, "case": replay})
         self.cases = []
 
     def file(self, props):
@@ -406,8 +427,9 @@ def history_campaign(ctx, camp, n_worlds, steps, props_cut=True):
     """Random worlds x random histories; every run in the history is observed."""
     rng = ctx.rng
     for wi in range(n_worlds):
-        w = World(camp.uj, rng, maxn=ctx.n(8, 10))
+        w = World(camp.uj, rng, maxn=ctx.n(8, 10), writers=(wi % 5 == 4))
         ctx.count("world_nodes", w.n)
+        ctx.count("world_has_writer_call", bool(w.writer_of))
         ctx.count("world_registered", sum(1 for m in w.meta if m["store"] is not None))
         hist = []
         for step in range(steps):
